@@ -28,7 +28,10 @@ CHECKS = {
              "(reflexivity), and for decaying tanks (any number of close-outs), decaying travel-time arcs and queue arcs (hence "
              "decaying queue tanks) what remains plus what is reported equals what was held, at entry and at every close-out, "
              "for any number of parcels in transit. Tie: T1 + exact correspondence of the core functions and of DecayTank, "
-             "DecayQueueTank, DecayArc, DecayArcAlt under random histories; C11 clause monitor after every operation.",
+             "DecayQueueTank, DecayArc, DecayArcAlt under random histories; C11 clause monitor after every operation. "
+             "An abstraction that reaches into a decaying queue tank (QueueGroundwater.pull_set_active, TimeArea.v) leaves the decay "
+             "still to be booked untouched (theorem); family tarea ties Sewer / QueueGroundwater; whole models and probes: every queue "
+             "tank declares what it holds plus unbooked decay.",
         design="5/C11, 11", tech="Coq proof over definitions regenerated from core.py and over hand-written store/arc models + exact-rational correspondence + history monitor",
         note=NOTE + "Python's float ** for non-integer exponents is trusted to be positive and monotone."),
     "C02": dict(
@@ -38,7 +41,9 @@ CHECKS = {
              "FLOAT_ACCURACY) bounded per request, backflow part of the reply and removed from the in-record; the "
              "alternative queue arc inside queue tanks loses nothing over any number of close-outs. Refuted part "
              "(sub-FLOAT_ACCURACY pushes swallowed with their pollutant load) is a recorded known finding. Tie: exact "
-             "operation-sequence correspondence of the hand-written models; implementation-side ledger monitor. Every queue tank, decaying or not, satisfies declared contents = arrived + in transit + decay pending report in every reachable state (DecayQTank.v).",
+             "operation-sequence correspondence of the hand-written models; implementation-side ledger monitor. Every queue tank, decaying or not, satisfies declared contents = arrived + in transit + decay pending report in every reachable state (DecayQTank.v). Whole models "
+             "under Model.run (mixed arc classes) and a sewer discharging over every arc class into receivers that fill up: per arc and "
+             "timestep entered = left + change in transit + decayed, nothing but decay between timesteps.",
         design="5/C02", tech="Coq proof (induction over operation lists, arbitrary end-node oracle) over hand-written models + exact-rational correspondence",
         note=NOTE + "Scope: arcs as components (all eight classes through Arc/QueueArc/AltQueueArc models; DecayArcAlt only inside DecayQueueTank); model-level runs are monitored by C01/C03 once built."),
     "C04": dict(
@@ -47,7 +52,10 @@ CHECKS = {
              "nothing and the offer, pull at most what was asked; stores: entered + remainder = offer with the offer's "
              "composition; queue arcs: the same once due water is counted (ledger theorems). Tank-backed ends are "
              "proved to meet the contract. Tie: exact correspondence; three-view monitor (sender/record/receiver) after "
-             "each of a sequence of requests.",
+             "each of a sequence of requests. The nodes built on a queue tank (Sewer, QueueGroundwater) are modelled (TimeArea.v) "
+             "and compared exactly (family tarea); probes on whole models, every tagged push the library emits against every target "
+             "class, whole models (node without boundary terms: arc records = store change) and the sewer duo monitor (late bounces "
+             "with changed quality) evaluate the clauses on the implementation.",
         design="5/C04", tech="Coq proof (contract-parametric) over hand-written models + exact-rational correspondence",
         note=NOTE + "Scope: component level (all arc classes x {Tank, scripted accept/part/none} ends); other node classes enter through the contract, whose instances for them are not yet proved."),
     "C05": dict(
@@ -56,7 +64,7 @@ CHECKS = {
              "flow_in is lowered only by a timestep end; in EVERY tank state an unforced push yields level <= "
              "max(capacity, level before) with entered + returned = offer; queue tanks: the limited level includes "
              "water still queued (storage = arrived + buckets is an invariant); pulls, evaporation and pollutant pulls "
-             "take at most what is there. Tie: exact correspondence + direct capacity monitor. The thresholds hard-coded in the models are the constants of the tree under test (T4).",
+             "take at most what is there. Tie: exact correspondence + direct capacity monitor (answers to queries are written on: a store that hands out its own record is seen). The thresholds hard-coded in the models are the constants of the tree under test (T4).",
         design="5/C05", tech="Coq proof (invariants by induction over operation lists) over hand-written models + exact-rational correspondence",
         note=NOTE + "Arc-level force=True (used nowhere in the library) is outside the arc clauses: a forced over-capacity push makes the spare capacity negative."),
     "C06": dict(
@@ -73,9 +81,12 @@ CHECKS = {
              "counts towards contents and capacity meanwhile, pulls take only what has arrived, nothing is lost; "
              "time-area fractions summing to 1 add up to the flux; queue arcs deliver or bounce exactly the requests of "
              "the direction whose remaining time is 0 (for any far end) and close-out lowers every remaining time by "
-             "one. Tie: exact correspondence + an independent delay-schedule reference on the implementation.",
+             "one. A decaying queue tank keeps the timetable of the plain one (volume erasure theorem, after the repair of "
+             "DecayQueueTank._end_timestep); time-area pushes of Sewer / QueueGroundwater keep the contents declared. Tie: exact "
+             "correspondence (incl. family tarea: Sewer and QueueGroundwater with overrides on used nodes) + an independent "
+             "delay-schedule reference on the implementation (queue tanks, and a real Sewer fed by tagged pushes over several timesteps).",
         design="5/C09", tech="Coq proof (induction over close-outs and request lists) over hand-written models + exact-rational correspondence",
-        note=NOTE + "DecayQueueTank (no release at close-out) and sub-FLOAT_ACCURACY pushes are outside the QueueTank theorems (hypotheses plain / eps <= vol)."),
+        note=NOTE + "Sub-FLOAT_ACCURACY pushes are outside the QueueTank arrival theorems (hypothesis eps <= vol); the decaying tank is covered in volume through the erasure theorem."),
     "C18": dict(
         text="Theorems about the model of Node.push_distributed / pull_distributed / get_connected on a star, for any "
              "fan-out, capacities, preferences >= 0, type filter and iteration limit, against any far ends meeting the "
@@ -83,7 +94,8 @@ CHECKS = {
              "reported total, filtered-out arcs are untouched, every arc stays within capacity, and when the loop stops "
              "before the iteration limit the request is met or nothing more is feasible (both within FLOAT_ACCURACY); "
              "per-round shares are proportional to allocation and bounded. Tie: exact correspondence incl. the "
-             "iteration-limit message and ZeroDivisionError; implementation monitor incl. the proportional-share clause.",
+             "iteration-limit message and ZeroDivisionError, with arcs connected after the node has been used; implementation monitor incl. "
+             "the proportional-share clause, feasibility asked of the arcs one by one; probes on whole models: a pull over any arc returns no more than asked.",
         design="5/C18", tech="Coq proof (induction over arcs and over the bounded redistribution loop, contract-parametric) over a hand-written model + exact-rational correspondence",
         note=NOTE + "The model visits arcs in creation order (see trusted base in the evidence); of_type given as a bare string (substring test in the single-arc path) is not modelled."),
     "C01": dict(
@@ -100,7 +112,9 @@ CHECKS = {
              "the decay it applies, records exactly that, re-bases the lagged copy to the contents before decay; queue tanks and "
              "queue arcs keep what is in transit). The summation over a whole model is checked by an exact-arithmetic stock "
              "monitor (object-graph walk over all Tank instances, queue contents and WWTW liquor; within a timestep stock "
-             "changes only by declared boundary terms and decay; across close-out only by recorded decay).",
+             "changes only by declared boundary terms and decay; across close-out only by recorded decay; every queue tank declares what "
+             "it holds plus unbooked decay, also after requests made directly over every arc). An abstraction from a time-area store keeps "
+             "the tank's books (theorem over TimeArea.v, tied by family tarea).",
         design="5/C03", tech="Coq proof of the close-out lemmas + exact-arithmetic whole-model stock monitor (partial)",
         note=NOTE),
     "C12": dict(
@@ -117,7 +131,9 @@ CHECKS = {
              "pollutant lists, masses and qualities give equal volumes under every store operation, close-out and every "
              "push/pull over a plain arc between volume-determined ends (tank-backed ends are). Whole models: paired exact "
              "runs of the same hydraulic set-up under different pollutant lists, orders, concentrations, loads and treatment "
-             "parameters must give identical volumes for every arc and store at every timestep.",
+             "parameters must give identical volumes for every arc and store at every timestep (every third set-up with travel-time / "
+             "decaying arcs and ephemeral streams, configurations without decay and with all-zero qualities). Queue tanks: any two with "
+             "the same dimensions and volumes give the same volumes under every operation sequence WHETHER OR NOT THEY DECAY (QTankErasure.v).",
         design="5/C20", tech="Coq proof (relational erasure lemmas) + paired exact whole-model runs (partial)",
         note=NOTE),
     "C13": dict(
@@ -135,7 +151,8 @@ CHECKS = {
              "through river / junction / reservoir arcs, every river that drains to an outlet is in the order exactly once, "
              "levels strictly decrease downstream. Tie: exact river-order correspondence on random acyclic graphs. The "
              "call-sequence clauses (orchestration order, once per node, close-out, recorded flow = delivered flow) are checked "
-             "by an event-log monitor on the implementation (partial for that part).",
+             "by an event-log monitor on the implementation (partial for that part), river networks with travel-time arcs below junctions "
+             "(pushed once per tributary and timestep) included.",
         design="5/C16", tech="Coq proof (relaxation fixpoint + stable sort) over a hand-written model + exact river-order correspondence + event-log monitor",
         note=NOTE),
     "C07": dict(
@@ -154,7 +171,8 @@ CHECKS = {
              "push-only arcs never carry a pull, checks change nothing; a distribution leaves arcs to neighbours of other "
              "types untouched (frame theorems, any fan-out). Tie: table generator T2, arc and star correspondence (list and "
              "bare-string filters, substring-related class names); behavioural cross-product monitor (class x arc class x "
-             "request kind, incl. forced pushes over pull-only arcs; every emission towards every target class). Two "
+             "request kind, incl. forced pushes over pull-only arcs; every emission towards every target class; every tag the library emits "
+             "pushed over every arc class that queues requests reaches the far end with that tag, at once or when due). Two "
              "genuine defects were repaired with fix: commits.",
         design="5/C08", tech="Coq proof over generated finite tables (vm_compute) and over arc/star models + exact correspondence + behavioural cross product",
         note=NOTE + "A tag or type filter computed at run time would be invisible to T2 (none in the library; the generator reports dynamic ones)."),
@@ -164,7 +182,9 @@ CHECKS = {
              "evaporation; deposition is load x area with no water; household demand is population x per-capita use with "
              "population x load; catchment inflow is the data row with mass = concentration x flow. Tie: exact correspondence "
              "of these functions and of the catchment routing / abstraction model. Whole models (incl. pervious surfaces, which "
-             "are not modelled in Coq): monitor with an independent evaluation of the configuration data (partial for those).",
+             "are not modelled in Coq): monitor with an independent evaluation of the configuration data (partial for those); deposition "
+             "read from monthly surface forcing under Model.run over date lists that are not contiguous days (same month in consecutive "
+             "years, month and year ends, gaps): declared = value for the month of the timestep x area.",
         design="5/C17", tech="Coq proof over hand-written boundary-function models + exact correspondence + independent-oracle whole-model monitor",
         note=NOTE),
     "C19": dict(
@@ -173,7 +193,9 @@ CHECKS = {
              "most what was asked, nothing at or below the allowance (so any number of abstractions in any order); with the "
              "water in the river's own store the allowance is kept and the check is honest; the release step takes "
              "min(outstanding, contents), never more than outstanding, and counts exactly what went downstream. Tie: exact "
-             "correspondence of the real classes as hubs of typed stars; monitor with tank-backed upstream neighbours. One "
+             "correspondence of the real classes as hubs of typed stars, with apply_overrides on a node that has been used (KOverride); "
+             "monitor with tank-backed upstream neighbours that computes the allowance from the current parameters itself and re-parameterises "
+             "reaches mid-history. One "
              "genuine defect (unpushed release counted as satisfied) was repaired with a fix: commit.",
         design="5/C19", tech="Coq proof (contract-parametric, over Tank + Distrib models) + exact correspondence + implementation monitor",
         note=NOTE + "riverrc is evaluated with a rational surrogate of exp on both sides of the correspondence; the theorems do not depend on its value."),
